@@ -31,7 +31,7 @@ def _root_is_memo_call(e, memo: Set[str], tainted: Set[str]) -> bool:
         if isinstance(e, ast.Call):
             cn = call_name(e) or ""
             last = cn.split(".")[-1]
-            if last in memo and (cn == last or cn == f"self.{last}" or cn.count(".") == 1):
+            if last in memo and (cn == last or cn == f"self.{last}" or cn.count(".") >= 1):
                 return True
             if isinstance(e.func, ast.Attribute):
                 if e.func.attr in COPIES:
@@ -55,8 +55,10 @@ def _root_is_memo_call(e, memo: Set[str], tainted: Set[str]) -> bool:
         return False
 
 
-def scan(tree) -> List[Tuple[ast.AST, str]]:
-    memo = _memoised(tree)
+def scan(tree, handouts: Set[str] = frozenset()) -> List[Tuple[ast.AST, str]]:
+    """`handouts`: names of accessor methods known to return the object's own stored array/matrix (e.g. Operator.get_matrix): their result is as
+    shared as a memoised one"""
+    memo = _memoised(tree) | set(handouts)
     out = []
     if not memo:
         return out
@@ -108,7 +110,21 @@ def plain(n):
 '''
 
 
-def memo_rule(chk, repo, rule: str, prefixes) -> int:
+def handout_methods(repo, specs) -> Set[str]:
+    """names of the accessor methods in `specs` (class qualifier, method) whose every return hands out a stored attribute of self unchanged"""
+    out = set()
+    for qual, meth in specs:
+        try:
+            fn = repo.method(repo.cls(qual), meth)[1]
+        except Exception:
+            continue
+        rets = [r for r in ast.walk(fn) if isinstance(r, ast.Return) and r.value is not None]
+        if rets and all(isinstance(r.value, ast.Attribute) and isinstance(r.value.value, ast.Name) and r.value.value.id == "self" for r in rets):
+            out.add(meth)
+    return out
+
+
+def memo_rule(chk, repo, rule: str, prefixes, handouts: Set[str] = frozenset()) -> int:
     from .index import AnchorError
     hits = scan(ast.parse(_CONTROL))
     if [h[0].lineno for h in hits] != [10]:
@@ -121,9 +137,181 @@ def memo_rule(chk, repo, rule: str, prefixes) -> int:
         repo.consulted[rel] = m.digest
         n += 1
         nm += len(_memoised(m.tree))
-        for s, what in scan(m.tree):
+        for s, what in scan(m.tree, handouts):
             chk.fail(rule, f"{rel}/memoised-result-mutated@{what}", f"{rel}:{s.lineno}",
-                     f"`{ast.unparse(s)[:70]}` writes into `{what}`, which is (a possibly non-copying conversion of) the result of a memoised function: the cached "
-                     f"object is shared by every caller with equal arguments, so operators built earlier or later silently change with it", s)
-    chk.ok(rule, "memoised-functions", "", f"{n} modules scanned, {nm} memoised function(s); no caller writes into a memoised result")
+                     f"`{ast.unparse(s)[:70]}` writes into `{what}`, which is (a possibly non-copying conversion of) the result of a memoised function or of an "
+                     f"accessor that hands out the object's own stored matrix ({sorted(handouts)}): the object is shared with every other user of it, "
+                     f"so operators / precisions built earlier or later silently change with it", s)
+    chk.ok(rule, "memoised-functions", "", f"{n} modules scanned, {nm} memoised function(s), shared accessors {sorted(handouts)}; no caller writes into their results")
+    return n
+
+
+# ----------------------------------------------------------------------------------------------------------- module-level keyed caches
+def _module_dicts(tree) -> Set[str]:
+    out = set()
+    for s in tree.body:
+        if isinstance(s, ast.Assign) and len(s.targets) == 1 and isinstance(s.targets[0], ast.Name):
+            v = s.value
+            if (isinstance(v, ast.Dict) and not v.keys) or (isinstance(v, ast.Call) and call_name(v) in ("dict", "OrderedDict", "collections.OrderedDict") and not v.args):
+                out.add(s.targets[0].id)
+    return out
+
+
+def _self_reads(fn, resolve, seen=None) -> Set[str]:
+    """fields of self a method reads: `self.x` loads, through self.m() calls and property getters (resolve(name) -> ('method'|'property', FunctionDef))"""
+    seen = seen if seen is not None else set()
+    if id(fn) in seen:
+        return set()
+    seen.add(id(fn))
+    out = set()
+    for n in ast.walk(fn):
+        if isinstance(n, ast.Attribute) and isinstance(n.value, ast.Name) and n.value.id == "self" and isinstance(n.ctx, ast.Load):
+            r = resolve(n.attr)
+            if r is None:
+                out.add(n.attr)
+            else:
+                out |= _self_reads(r[1], resolve, seen)
+    return out
+
+
+def _returns_field(fn) -> str:
+    rets = [r for r in ast.walk(fn) if isinstance(r, ast.Return) and r.value is not None]
+    if len(rets) == 1 and isinstance(rets[0].value, ast.Attribute) and isinstance(rets[0].value.value, ast.Name) and rets[0].value.value.id == "self":
+        return rets[0].value.attr
+    return ""
+
+
+def scan_keyed_caches(tree, resolver_for_class):
+    """(method, cache name, key text, uncovered fields) for every `if KEY not in CACHE: <produce>; CACHE[KEY] = ...` in a method, CACHE a module-level
+    dict: the fields of self the producing statements read must each appear in KEY as `self.<field>` (or through a property that returns the field
+    unchanged); a derived quantity such as a product of sizes does not determine its inputs."""
+    caches = _module_dicts(tree)
+    out = []
+    if not caches:
+        return out
+    for cls in [c for c in ast.walk(tree) if isinstance(c, ast.ClassDef)]:
+        resolve = resolver_for_class(cls)
+        for fn in [f for f in cls.body if isinstance(f, ast.FunctionDef)]:
+            keys = {s.targets[0].id: s.value for s in ast.walk(fn) if isinstance(s, ast.Assign) and len(s.targets) == 1 and isinstance(s.targets[0], ast.Name)}
+            for iff in [s for s in ast.walk(fn) if isinstance(s, ast.If)]:
+                t = iff.test
+                neg = isinstance(t, ast.Compare) and len(t.ops) == 1 and isinstance(t.ops[0], ast.NotIn)
+                pos = isinstance(t, ast.Compare) and len(t.ops) == 1 and isinstance(t.ops[0], ast.In)
+                if not (neg or pos) or not (isinstance(t.comparators[0], ast.Name) and t.comparators[0].id in caches):
+                    continue
+                cache = t.comparators[0].id
+                block = iff.body if neg else iff.orelse
+                if not any(isinstance(s, ast.Assign) and isinstance(s.targets[0], ast.Subscript) and isinstance(s.targets[0].value, ast.Name)
+                           and s.targets[0].value.id == cache for b in block for s in ast.walk(b)):
+                    continue
+                key = t.left
+                key = keys.get(key.id, key) if isinstance(key, ast.Name) else key
+                elts = key.elts if isinstance(key, ast.Tuple) else [key]
+                covered = set()
+                for e in elts:
+                    if isinstance(e, ast.Attribute) and isinstance(e.value, ast.Name) and e.value.id == "self":
+                        r = resolve(e.attr)
+                        covered.add(_returns_field(r[1]) if r is not None else e.attr)
+                        covered.add(e.attr)
+                reads = set()
+                wrapper = ast.Module(body=block, type_ignores=[])
+                reads |= _self_reads(wrapper, resolve)
+                writes = {n.attr for b in block for n in ast.walk(b) if isinstance(n, ast.Attribute) and isinstance(n.value, ast.Name) and n.value.id == "self" and isinstance(n.ctx, ast.Store)}
+                # fields written by the produced methods themselves are outputs, not inputs
+                for b in block:
+                    for c in ast.walk(b):
+                        if isinstance(c, ast.Call) and isinstance(c.func, ast.Attribute) and isinstance(c.func.value, ast.Name) and c.func.value.id == "self":
+                            r = resolve(c.func.attr)
+                            if r is not None:
+                                writes |= {n.attr for n in ast.walk(r[1]) if isinstance(n, ast.Attribute) and isinstance(n.value, ast.Name) and n.value.id == "self" and isinstance(n.ctx, ast.Store)}
+                missing = sorted(reads - covered - writes)
+                out.append((fn, cache, ast.unparse(key), missing, iff))
+    return out
+
+
+_CONTROL3 = '''
+_CACHE = {}
+
+class Op:
+    def __init__(self, n, bc):
+        self._n = n
+        self._bc = bc
+        key = (type(self), self.dim, self._bc)
+        if key not in _CACHE:
+            self._build()
+            _CACHE[key] = self._m
+        self._m = _CACHE[key]
+
+    @property
+    def dim(self):
+        return prod(self._n)
+
+    def _build(self):
+        self._m = make(self._n, self._bc)
+
+class Good:
+    def __init__(self, n, bc):
+        self._n = n
+        self._bc = bc
+        key = (self._n, self.bc)
+        if key not in _CACHE:
+            self._build()
+            _CACHE[key] = self._m
+        self._m = _CACHE[key]
+
+    @property
+    def bc(self):
+        return self._bc
+
+    def _build(self):
+        self._m = make(self._n, self._bc)
+'''
+
+
+def _simple_resolver(cls):
+    table = {}
+    for f in cls.body:
+        if isinstance(f, ast.FunctionDef):
+            is_prop = any(ast.unparse(d) == "property" for d in f.decorator_list)
+            if is_prop or not f.decorator_list:
+                table.setdefault(f.name, ("property" if is_prop else "method", f))
+    return lambda name: table.get(name)
+
+
+def keyed_cache_rule(chk, repo, rule: str, prefixes) -> int:
+    from .index import AnchorError
+    ctl = scan_keyed_caches(ast.parse(_CONTROL3), _simple_resolver)
+    if [(f.name, m) for f, c, k, m, i in ctl] != [("__init__", ["_n"]), ("__init__", [])]:
+        raise AnchorError(f"keyed-cache positive control did not fire as expected: {[(f.name, m) for f, c, k, m, i in ctl]}")
+
+    def repo_resolver(m):
+        def for_class(cls):
+            ci = next((c for c in m.classes.values() if c.node is cls), None)
+
+            def resolve(name):
+                if ci is None:
+                    return None
+                p = ci.lookup_prop(name)
+                if p is not None and p.getter is not None:
+                    return ("property", p.getter)
+                r = ci.lookup(name)
+                if r is not None and isinstance(r[1], ast.FunctionDef):
+                    return ("method", r[1])
+                return None
+            return resolve
+        return for_class
+    n = found = 0
+    for rel in sorted(repo.modules):
+        if not rel.startswith(tuple(prefixes)):
+            continue
+        m = repo.modules[rel]
+        repo.consulted[rel] = m.digest
+        n += 1
+        for fn, cache, key, missing, iff in scan_keyed_caches(m.tree, repo_resolver(m)):
+            found += 1
+            chk.add(rule, f"{rel}/{fn.name}/{cache}", not missing, f"{rel}:{iff.lineno}", f"key `{key}` contains every field the cached value is computed from",
+                    f"the module-level cache `{cache}` is keyed by `{key}`, but the cached value is computed from `self.{', self.'.join(missing)}` as well: two objects that "
+                    f"agree on the key and differ there (e.g. a 1-D grid of N*N nodes and an N x N grid have the same dim) share one entry, so whichever is "
+                    f"built first decides the matrix of the other", iff)
+    chk.ok(rule, "module-level-caches", "", f"{n} modules scanned, {found} keyed module-level cache(s)")
     return n
